@@ -542,11 +542,18 @@ func Block(label string, pred func() bool) {
 // Progress tells the idle-horizon watchdog that useful work happened.
 func Progress() { X.lastProg = X.clock }
 
+// EmitHook, when set by a harness, sees every probe event synchronously (so that it can look at
+// the live objects at that very moment).
+var EmitHook func(kind string, args []any)
+
 // Emit records a probe/harness event.
 func Emit(kind string, args ...any) {
 	x := X
 	if x.teardown {
 		return
+	}
+	if EmitHook != nil {
+		EmitHook(kind, args)
 	}
 	x.mix(hashStr(kind), uint64(len(args)))
 	if x.KeepEvts {
